@@ -138,6 +138,28 @@ func interfere(ctx *core.Ctx, inputs ...string) {
 	ctx.Count("interference_passes")
 }
 
+// interfereCase: as interfere, through the same entry points as the judged call - with a base,
+// the other parsers resolve the same reference against the same base string (ParseRef) and
+// against their own parse of it ((*Url).Parse), so that a memo of "the last base" keyed by its
+// text alone is filled by another configuration first.
+func interfereCase(ctx *core.Ctx, input, base string, hasBase bool) {
+	if !hasBase {
+		interfere(ctx, input)
+		return
+	}
+	for _, p := range interferenceParsers {
+		_ = ctx.Call(len(input)+len(base)+64, func() {
+			if u, err := p.ParseRef(base, input); err == nil && u != nil {
+				_ = obs.Take(u)
+			}
+			if b, err := p.Parse(base); err == nil && b != nil {
+				_, _ = b.Parse(input)
+			}
+		})
+	}
+	ctx.Count("interference_passes")
+}
+
 // rawHostOf cuts the raw host text out of an absolute URL spelling (scheme://[userinfo@]host[:port]/...).
 func rawHostOf(in string) string {
 	i := strings.Index(in, "://")
